@@ -471,6 +471,8 @@ def run(chk):
     chk.guard(rule_r3, chk)
     chk.guard(rule_r4, chk)
     chk.guard(rule_r5, chk)
+    from .. import unused as _unused
+    chk.guard(_unused.apply, chk, "C07-R91")
     from .. import args as _args
     chk.guard(_args.apply, chk, "C07-R90", {'fords', 'plans', 'stacked_time'}, 1)
     chk.assumptions = [
